@@ -96,6 +96,9 @@ type c17Case struct {
 	// reversed (same length, gaps elsewhere), as build distboot and a multi-alignment input make one model
 	// serve several alignments; the matrix that is judged is the one of the second call
 	Reuse bool `json:"model_reused,omitempty"`
+	// StrayAlpha: gamma is switched off (Alpha 0) but the constructor is handed this shape all the same; the
+	// distances are those without gamma
+	StrayAlpha float64 `json:"alpha_given_with_gamma_off,omitempty"`
 }
 
 func (cs c17Case) cfgKey() string {
@@ -384,7 +387,11 @@ func (k *c17Checker) exec(seqs []string, w []float64) *c17Res {
 				}
 			}
 		}
-		if m, err = protein.NewProtDistModel(cs.Model, cs.ModelFreqs, cs.Alpha > 0, cs.Alpha, cs.RmGaps); err != nil {
+		shape := cs.Alpha
+		if cs.Alpha == 0 && cs.StrayAlpha != 0 {
+			shape = cs.StrayAlpha
+		}
+		if m, err = protein.NewProtDistModel(cs.Model, cs.ModelFreqs, cs.Alpha > 0, shape, cs.RmGaps); err != nil {
 			return
 		}
 		stage = "InitModel"
@@ -1092,6 +1099,20 @@ func c17Tasks(tier string) []mc.Task {
 			}
 		}})
 	}
+	// gamma off, a shape handed over all the same (0.7, 2): every 2x2 alignment over {A,R,W}
+	for _, model := range c17Models {
+		model := model
+		ts = append(ts, mc.Task{Name: fmt.Sprintf("stray-alpha#%s", c17ModelNames[model]), Run: func(c *mc.Ctx) {
+			for _, mf := range []bool{true, false} {
+				for _, sa := range []float64{0.7, 2} {
+					forEachAlignment("ARW", 2, 2, func(seqs []string) bool {
+						c17Check(c, c17Case{Seqs: seqs, Model: model, ModelFreqs: mf, StrayAlpha: sa})
+						return !c.Expired()
+					})
+				}
+			}
+		}})
+	}
 	// lower-case residues (soft-masked regions, files written in lower case): every 2x3 alignment over {A,a,r}
 	for _, model := range c17Models {
 		model := model
@@ -1212,7 +1233,7 @@ func init() {
 	mc.Register(&mc.Prop{
 		ID:    "C17",
 		Level: "exploration",
-		Rule: "(on every case with gap-site removal on and a removable column: the matrix equals the one of the alignment with those columns deleted, removal off; also: all 2x3 alignments over {A,R,-} computed by a model object that first served the column-reversed alignment; all 2x3 alignments over {A,R,-} holding a gap, gap-site removal on, weights = every arrangement of (1,2,3); all 2x2 alignments over {A,R,W} computed after another model object of the same matrix, with the other and then the same frequency setting, served on skewed data; the 20 amino acids once each with the L column weighing 19000 (thorough also 1999) sites followed by every pair of columns over {L,A,R}, empirical frequencies (composition dominated by one amino acid: eigen values of the scaled rate matrix far below -745; cells of the pair table below 0.1% of the weight); every 2x3 alignment over {A,a,r} (lower-case residues are the same amino acids); with empirical frequencies the frequencies the model ends up with follow the weighted counts of the columns taken into account - equal counts, equal frequencies; larger count, frequency not smaller;) bounded-exhaustive enumeration of protein.NewProtDistModel + InitModel + MLDist on a lattice. Configurations: all 7 empirical models (LG, JTT, WAG, Dayhoff, MtREV, HIVb, AB) x {model, empirical} frequencies x gamma {off, alpha 0.5, 1, 2} x gap-site removal {off, on}. " +
+		Rule: "(on every case with gap-site removal on and a removable column: the matrix equals the one of the alignment with those columns deleted, removal off; also: all 2x3 alignments over {A,R,-} computed by a model object that first served the column-reversed alignment; all 2x3 alignments over {A,R,-} holding a gap, gap-site removal on, weights = every arrangement of (1,2,3); all 2x2 alignments over {A,R,W} computed after another model object of the same matrix, with the other and then the same frequency setting, served on skewed data; the 20 amino acids once each with the L column weighing 19000 (thorough also 1999) sites followed by every pair of columns over {L,A,R}, empirical frequencies (composition dominated by one amino acid: eigen values of the scaled rate matrix far below -745; cells of the pair table below 0.1% of the weight); every 2x3 alignment over {A,a,r} (lower-case residues are the same amino acids); every 2x2 alignment over {A,R,W} with gamma off and a shape 0.7 / 2 handed to the constructor all the same; with empirical frequencies the frequencies the model ends up with follow the weighted counts of the columns taken into account - equal counts, equal frequencies; larger count, frequency not smaller;) bounded-exhaustive enumeration of protein.NewProtDistModel + InitModel + MLDist on a lattice. Configurations: all 7 empirical models (LG, JTT, WAG, Dayhoff, MtREV, HIVb, AB) x {model, empirical} frequencies x gamma {off, alpha 0.5, 1, 2} x gap-site removal {off, on}. " +
 			"Inputs, quick tier: every alignment of " + c17BoundText("quick") + ". Thorough tier: " + c17BoundText("thorough") + ". " +
 			"Every input is executed once (a fresh model per execution) and its matrix is compared with the matrix of its smallest row/column rearrangement, so that every row order and every column order (weights travelling with their columns) of every alignment is covered; symmetries of an alignment (equal rows, equal columns) are checked on its own matrix. " +
 			"Clauses per matrix: square of the right size, no NaN, |d_ii| <= 1e-6, |d_ij - d_ji| <= 1e-6, 0 <= d_ij <= 20 (exact), d_ij <= 1e-6 when no column holds two different unambiguous residues, " +
